@@ -258,12 +258,14 @@ func (p *planner) planDrop(i int, ppl *logql_parser.StrSelectorPipeline) error {
 	if err != nil {
 		return err
 	}
+	// drop rewrites the labels column; filters planned before it must keep seeing the
+	// labels as they were, so the drop gets a sub-select of its own
 	p.samplesPlanner = &PlannerDrop{
 		Labels:      labels,
 		Vals:        values,
 		LabelsCache: &p.labelsCache,
 		fpCache:     &p.fpCache,
-		Main:        p.samplesPlanner,
+		Main:        &MainRenewPlanner{p.samplesPlanner, true},
 	}
 	return nil
 }
